@@ -34,7 +34,7 @@ from ..chooser import explore
 from ..refs import c13_model as M
 from ..refs import c13_features as F
 
-EXTRA_HASH_SEEDS = {'thorough': ('1', '2')}      # the order of a dependent variable's dependencies comes from a set
+EXTRA_HASH_SEEDS = {'thorough': ('1',)}        # the order of a dependent variable's dependencies comes from a set
 PROPERTY = 'C13'
 RULE = ('a case is one sampling configuration (dependency digraph by index -> edge bits, declaration order and '
         'sample_from insertion order by permutation index, variant, number of samples); for each case the full '
